@@ -248,7 +248,7 @@ impl ThreeFold {
 
     pub fn add(&mut self, board: Board) -> bool {
         let count = self.boards.entry(board).or_insert(0);
-        *count += 1;
+        *count = count.saturating_add(1);
         *count == 3
     }
 
@@ -415,7 +415,7 @@ impl Engine {
             self.max_depth = depth;
             #[cfg(rustyyato_chess_verif)]
             verif::emit(verif::Event::Commit { depth, mv: best_mv, score: best_score });
-            depth += 1;
+            depth = depth.saturating_add(1);
 
             match score {
                 Score::BlackMateIn(_) | Score::WhiteMateIn(_) => break,
